@@ -143,6 +143,7 @@ package leader
 //@   on call uuid.String as u set $lastDrawn = u.result
 //@   on call KeyValue.Create as c assert C05.token_drawn_for_this_attempt: $tokenDrawn && TokenOf(c.value) == $lastDrawn
 //@   on ret KeyValue.Create set $tokenDrawn = false
+//@   on call wg.Add assert C20+C09.wait_group_grows_under_the_mutex_or_on_a_tracked_goroutine: nheld(kvElection.mu) >= 1 || caller.onTrackedGoroutine
 //@   on call kvElection.onDemote assert C08+C09+C11+C13.callbacks_run_outside_the_mutex: nheld(kvElection.mu) == 0
 //@   on call kvElection.onPromote assert C08+C09+C13.callbacks_run_outside_the_mutex: nheld(kvElection.mu) == 0
 //@   on unlock kvElection.mu assert C18.gauge_follows_claim: $gaugeFresh
@@ -170,7 +171,6 @@ package leader
 
 //@ iface KeyValue.Get(key)
 //@   requires C01.key_is_group: key == e.key
-//@   assumes result1 == nil ==> result0 != nil
 //@   assumes FromGet(result0)
 
 //@ iface KeyValue.Delete(key)
@@ -516,6 +516,7 @@ package leader
 //@   on call onPromote assert C08.promote_once_per_activation: calls(onPromote) == 1
 //@   ghost tcFn Int = 0
 //@   on store kvElection.termCancel as s set tcFn = s.value
+//@   on store kvElection.termCancel assert C19.term_cancel_replaced_only_between_terms: !wasLeaderAtLock
 //@   on call heartbeatLoop as c assert C07+C12+C03.loops_bound_to_the_term: tcFn != nil && CancelTarget(tcFn) == c.ctx
 //@   on call validationLoop as c assert C07+C04.loops_bound_to_the_term: tcFn != nil && CancelTarget(tcFn) == c.ctx
 //@   ghost claimed Bool = false
@@ -543,6 +544,7 @@ package leader
 //@   ghost out cleared Bool = false
 //@   ghost termCancelled Bool = false
 //@   ghost mayCancelTerm Bool = false
+//@   on store kvElection.leaderID assert C18.known_leader_never_forgotten: false
 //@   on store kvElection.isLeader as s when !s.value set mayCancelTerm = cleared
 //@   ghost watcherSeen Bool = false
 //@   ghost ctxSeen Bool = false
@@ -740,6 +742,7 @@ package leader
 
 //@ func (e *kvElection) heartbeatLoop(ctx)
 //@   tags C03 C12 C05 C01 C07
+//@   ghost onTrackedGoroutine Bool = true
 //@   flag spawn_exempt:@KeyValue.Update
 //@   on send as s when inspawn() assert C09+C03.helper_goroutine_never_strands: s.cap >= 1 && s.earlier == 0
 //@   requires C09.nil_ctx: ctx != nil
@@ -800,7 +803,7 @@ package leader
 //@   on call handleHeartbeatFailure as c set heartbeat_failed = failed && c.err != nil
 //@   on call handleHeartbeatFailure as c assert C07.demotes_only_on_real_failure: failed && classified && (isPerm || cfail >= 3)
 //@   loop 0 invariant C03.fail_count: 0 <= $v && $v <= 2 && $v == cfail
-//@   loop 0 invariant C03.no_pending_demotion: (failed ==> classified) && !(classified && isPerm) && !hbfCalled && !pendingCancel
+//@   loop 0 invariant C03.no_pending_demotion: (failed ==> classified) && !(classified && isPerm) && !hbfCalled && !pendingCancel && onTrackedGoroutine
 //@   loop 0 invariant C12.count_is_streak: e.healthFailureCount == streak && 0 <= streak && streak < MaxHealth(e.cfg)
 //@   on return assert C03.demotion_on_exit: classified && (isPerm || cfail >= 3) ==> hbfCalled
 //@   ghost pendingCancel Bool = false
@@ -821,7 +824,7 @@ package leader
 //@   on load kvElection.onDemote as l set demoteSet = l.value != nil
 //@   ensures C03.demotes: calls(becomeFollower) == 1
 //@   ensures C03.runs_demote_callback: cleared && demoteSet ==> calls(onDemote) == 1
-//@   ensures C08.demote_iff_claim_cleared: calls(onDemote) == ((cleared && demoteSet) ? 1 : 0)
+//@   ensures C08+C03.demote_iff_claim_cleared: calls(onDemote) == ((cleared && demoteSet) ? 1 : 0)
 
 //@ func (e *kvElection) handleRunCancelled(ctx)
 //@   tags C03 C02 C08 C07 C20
@@ -839,7 +842,7 @@ package leader
 //@   on load kvElection.onDemote as l set demoteSet = l.value != nil
 //@   ensures C03+C02.cancelled_run_ends_its_term: runDead ==> calls(becomeFollower) == 1
 //@   ensures C07.live_run_left_alone: !runDead ==> calls(becomeFollower) == 0 && calls(onDemote) == 0
-//@   ensures C08.demote_iff_claim_cleared: calls(onDemote) == ((cleared && demoteSet) ? 1 : 0)
+//@   ensures C08+C03.demote_iff_claim_cleared: calls(onDemote) == ((cleared && demoteSet) ? 1 : 0)
 
 //@ func (e *kvElection) handleHealthCheckFailure()
 //@   tags C12 C08 C07
@@ -852,7 +855,7 @@ package leader
 //@   on load kvElection.onDemote as l set demoteSet = l.value != nil
 //@   ensures C12.demotes: calls(becomeFollower) == 1
 //@   ensures C12.runs_demote_callback: cleared && demoteSet ==> calls(onDemote) == 1
-//@   ensures C08.demote_iff_claim_cleared: calls(onDemote) == ((cleared && demoteSet) ? 1 : 0)
+//@   ensures C08+C12.demote_iff_claim_cleared: calls(onDemote) == ((cleared && demoteSet) ? 1 : 0)
 
 // ===========================================================================
 // fencing.go  (C04)
@@ -892,7 +895,7 @@ package leader
 //@   on load kvElection.onDemote as l set demoteSet = l.value != nil
 //@   ensures C04.demotes: calls(becomeFollower) == 1
 //@   ensures C04.runs_demote_callback: cleared && demoteSet ==> calls(onDemote) == 1
-//@   ensures C08.demote_iff_claim_cleared: calls(onDemote) == ((cleared && demoteSet) ? 1 : 0)
+//@   ensures C08+C04.demote_iff_claim_cleared: calls(onDemote) == ((cleared && demoteSet) ? 1 : 0)
 
 // ===========================================================================
 // watcher.go  (C06, C07, C10, C13)
@@ -900,6 +903,7 @@ package leader
 
 //@ func (e *kvElection) watchLoop(ctx)
 //@   tags C06 C13 C01
+//@   ghost onTrackedGoroutine Bool = true
 //@   requires C09.nil_ctx: ctx != nil
 //@   ghost sawDone Bool = false
 //@   ghost tickerArmed Bool = false
@@ -917,11 +921,12 @@ package leader
 //@   on call checkKeyAndReelect set checked = true
 //@   on backedge 0 assert C06.periodic_check_when_follower: tick ==> (leaderSeen || checked)
 //@   on backedge 0 set tick = false
-//@   loop 0 invariant C06.periodic_check_armed: tickerArmed && !tick
+//@   loop 0 invariant C06.periodic_check_armed: tickerArmed && !tick && onTrackedGoroutine
 //@   on return assert C06.loop_ends_only_on_cancel: sawDone
 
 //@ func (e *kvElection) checkKeyAndReelect(ctx)
 //@   tags C06 C13 C18 C01
+//@   ghost onTrackedGoroutine Bool = true
 //@   requires C09.nil_ctx: ctx != nil
 //@   ghost sawLeader Bool = false
 //@   ghost getErr Int = 0
@@ -941,6 +946,7 @@ package leader
 
 //@ func (e *kvElection) handleWatchEvent(entry)
 //@   tags C06 C07 C08 C10 C13 C18
+//@   ghost onTrackedGoroutine Bool = true
 //@   ghost demote_cause Bool = false
 //@   ghost sawLeader Bool = false
 //@   ghost revLoaded Bool = false
@@ -966,7 +972,7 @@ package leader
 //@   ensures C13.ignore_unparsable: entry != nil && LenOf(EntryVal(entry)) != 0 && !ParseOK(EntryVal(entry)) ==> calls(becomeFollower) == 0 && scalls(attemptAcquire) == 0
 //@   ghost demoteSet Bool = false
 //@   on load kvElection.onDemote as l set demoteSet = l.value != nil
-//@   ensures C08.demote_iff_claim_cleared: calls(onDemote) == ((cleared && demoteSet) ? 1 : 0)
+//@   ensures C08+C13+C03.demote_iff_claim_cleared: calls(onDemote) == ((cleared && demoteSet) ? 1 : 0)
 
 // ===========================================================================
 // connection.go  (C11)
@@ -1008,7 +1014,7 @@ package leader
 //@   ensures C11.expiry_demotes: isCurrent && (d.election.connectionMonitor == nil || statusSeen == 1) && sawLeader ==> calls(becomeFollower) == 1 && (demoteSet ==> calls(onDemote) == 1)
 //@   ensures C11.no_demotion_if_reconnected: d.election.connectionMonitor != nil && statusSeen != 1 ==> calls(becomeFollower) == 0 && calls(onDemote) == 0
 //@   ensures C11+C08.no_demotion_if_not_leader: !sawLeader ==> calls(becomeFollower) == 0 && calls(onDemote) == 0
-//@   ensures C08.demote_iff_claim_cleared: calls(onDemote) == ((cleared && demoteSet) ? 1 : 0)
+//@   ensures C08+C11.demote_iff_claim_cleared: calls(onDemote) == ((cleared && demoteSet) ? 1 : 0)
 
 //@ func (d *disconnectHandler) stop()
 //@   tags C11 C20
@@ -1052,7 +1058,7 @@ package leader
 //@   on load kvElection.onDemote as l set demoteSet = l.value != nil
 //@   ensures C11.failed_verification_demotes: sawLeader ==> calls(becomeFollower) == 1 && (demoteSet ==> calls(onDemote) == 1)
 //@   ensures C11+C08.no_demotion_if_not_leader: !sawLeader ==> calls(becomeFollower) == 0 && calls(onDemote) == 0
-//@   ensures C08.demote_iff_claim_cleared: calls(onDemote) == ((cleared && demoteSet) ? 1 : 0)
+//@   ensures C08+C11.demote_iff_claim_cleared: calls(onDemote) == ((cleared && demoteSet) ? 1 : 0)
 
 // monitor
 //@ func (m *natsConnectionMonitor) Start(ctx)
